@@ -153,25 +153,37 @@ func collectIndexed(db *sqlittle.DB, table, index string, cols []string) (rows [
 }
 
 func collectIndexedEq(db *sqlittle.DB, table, index string, key sqlittle.Key, cols []string) (rows []hx.Row, err error, panicMsg string) {
+	var keep retained
 	p, msg := safely(func() {
 		err = db.IndexedSelectEq(table, index, key, func(r sqlittle.Row) {
-			rows = append(rows, hx.CloneRow(r))
+			c := hx.CloneRow(r)
+			keep.add(r, c)
+			rows = append(rows, c)
 		}, cols...)
 	})
 	if p {
 		panicMsg = msg
 	}
+	if keep.bad != "" && panicMsg == "" {
+		panicMsg = "RETAINED-ROW-CHANGED: " + keep.bad
+	}
 	return
 }
 
 func collectPK(db *sqlittle.DB, table string, key sqlittle.Key, cols []string) (rows []hx.Row, err error, panicMsg string) {
+	var keep retained
 	p, msg := safely(func() {
 		err = db.PKSelect(table, key, func(r sqlittle.Row) {
-			rows = append(rows, hx.CloneRow(r))
+			c := hx.CloneRow(r)
+			keep.add(r, c)
+			rows = append(rows, c)
 		}, cols...)
 	})
 	if p {
 		panicMsg = msg
+	}
+	if keep.bad != "" && panicMsg == "" {
+		panicMsg = "RETAINED-ROW-CHANGED: " + keep.bad
 	}
 	return
 }
